@@ -308,7 +308,8 @@ def gen_deck(rng, n_like=None, imp_decrease=False, allow_void_mat=False):
             rng.shuffle(cells)
     data = []
     if imp_mode == 'data':
-        vals = ['0' if c['id'] == out['id'] else '1' for c in cells]
+        vals = ['0' if c['id'] == out['id'] else rng.choice(['1', '1', '2', '4'])
+                for c in cells]
         data.append('imp:n ' + ' '.join(vals))
     used = set()
     for c in cells:
